@@ -1139,8 +1139,37 @@ def _iterates_unknown_object(node: ast.AST) -> bool:
         elif isinstance(child, ast.Starred) and isinstance(child.ctx, ast.Load):
             if not _is_static_iterable(child.value):
                 return True
+        elif isinstance(child, ast.Assign):
+            # a, b = it  iterates it (and checks its length), also when a and b are never read
+            if any(_unpacks_unknown_object(target, child.value) for target in child.targets):
+                return True
 
     return False
+
+
+def _unpacks_unknown_object(target: ast.AST, value: ast.AST) -> bool:
+    """Whether assigning value to target unpacks an object that is not built on the spot, or fails."""
+    if not isinstance(target, (ast.Tuple, ast.List)):
+        return False
+    if isinstance(value, (ast.Tuple, ast.List)) and not any(
+        isinstance(elt, ast.Starred) for elt in value.elts
+    ):
+        if any(isinstance(elt, ast.Starred) for elt in target.elts):
+            # too few values raise ValueError, which deleting the statement would hide
+            return len(value.elts) < len(target.elts) - 1
+        if len(value.elts) != len(target.elts):
+            return True
+        return any(map(_unpacks_unknown_object, target.elts, value.elts))
+
+    if isinstance(value, ast.Constant):
+        if not isinstance(value.value, (str, bytes)):
+            return True  # TypeError: cannot unpack non-iterable
+        n_starred = sum(isinstance(elt, ast.Starred) for elt in target.elts)
+        if n_starred:
+            return len(value.value) < len(target.elts) - 1
+        return len(value.value) != len(target.elts)
+
+    return not _is_static_iterable(value)
 
 
 def _mentions_underscore(node: ast.AST) -> bool:
